@@ -10,7 +10,7 @@ import json,sys
 pid,n=sys.argv[1],sys.argv[2]
 p=[json.loads(l) for l in open('/verif/properties.jsonl') if json.loads(l)['id']==pid][0]
 text=f"{p['title']}.\n{p['statement']}\n(Quantified over: {p['quantifier']['text']})"
-t=open('/tmp/seed/template.txt').read().replace('@DIR@',f'/tmp/seed/{pid}/repo').replace('@PROPERTY@',text).replace('@N@',n)
+t=open('/verif/tools/seed_template.txt').read().replace('@DIR@',f'/tmp/seed/{pid}/repo').replace('@PROPERTY@',text).replace('@N@',n)
 open(f'/tmp/seed/{pid}/PROMPT.txt','w').write(t)
 PY
 echo $d
